@@ -9,6 +9,11 @@ def run(tier, seed):
     t0 = time.time()
     rep = Report("C15", tier, seed)
     rep.level = "exploration"
+    from ..par import pmap
+    from . import e1_json
+
+    for obs, _ in pmap("vf.props.e1_json", e1_json.tasks()):
+        rep.obs.extend(obs)
     derive.run_c15(rep, tier, seed)
     rep.rule = "E3 scope (DESIGN Appendix B): structured skeleton corpus x element/role/stereo decorations x the operation's argument space; distinct_nontrivial = distinct base graphs"
     rep.assumptions = ["bounded: only the enumerated scope is covered"]
